@@ -552,6 +552,8 @@ func checkC04(c *Check) {
 		c.Hold("R4", "start:sender-reject", r.FI.Decl.Pos(), !f && len(store) == 1, "a sender block with a configured reject reply is accepted: "+r.F.Describe(path))
 	}
 
+	c04Decides(c)
+
 	// ---- R7: the block that answers is the block selected for THIS transaction's sender
 	c.Rule("R7", "SMTP endpoint, deferred sender rejection: the session state Rcpt consults before it starts the delivery (the remembered reply of a failed start, the sender, the options) is assigned by every accepted MAIL – a recipient is never refused with the reply of a block selected for an earlier transaction's sender", 1)
 	sessionStaleState(c, "R7")
@@ -673,4 +675,125 @@ func methodNameOrFun(call *ast.CallExpr) string {
 		return m
 	}
 	return exprStr(call.Fun)
+}
+
+// R8, R9: every selectable block decides, and every table that can be named in a rule can say "yes".
+//
+// R8 – "configurations that leave some combination without an explicit decision are refused at load time": a
+// recipient block is what parseMsgPipelineRcptCfg returns; on a path on which neither a target was added nor a reject
+// reply stored, the function must not succeed (a block without either accepts its recipients and hands them to nobody).
+// Decided in the world where the target list is empty and the reject reply nil.
+//
+// R9 – "table match" is the first precedence level, and `destination_in regexp "<expr>" { … }` (documented: without a
+// replacement the table acts as a match check and returns the key) is one of its forms: on the path where the
+// expression matched, table.regexp returns a non-empty result also in the world "no replacement configured".
+func c04Decides(c *Check) {
+	c.Rule("R8", "configuration: parseMsgPipelineRcptCfg succeeds only for a block with at least one target or a reject reply (decided in the world 'no deliver_to / reroute / reject directive was seen')", 1)
+	if r := c.need("R8", pipelineRel, "", "parseMsgPipelineRcptCfg"); r != nil {
+		info := r.Info
+		decides := r.Assigns(func(l, _ ast.Expr) bool {
+			fv := fieldOf(info, l)
+			return fv != nil && (objName(fv) == "targets" || objName(fv) == "rejectErr")
+		})
+		w := r.F.World(func(atom ast.Expr) (bool, bool) {
+			be, ok := ast.Unparen(atom).(*ast.BinaryExpr)
+			if !ok {
+				return false, false
+			}
+			// len(x.targets) ⋈ 0 with an empty list; x.rejectErr ⋈ nil with a nil reply
+			if call, isCall := ast.Unparen(be.X).(*ast.CallExpr); isCall && len(call.Args) == 1 {
+				if id, isID := call.Fun.(*ast.Ident); isID && id.Name == "len" {
+					if fv := fieldOf(info, call.Args[0]); fv != nil && objName(fv) == "targets" {
+						if tv, has := info.Types[be.Y]; has && tv.Value != nil && tv.Value.String() == "0" {
+							switch be.Op {
+							case token.EQL, token.LEQ:
+								return true, true
+							case token.NEQ, token.GTR:
+								return false, true
+							}
+						}
+					}
+				}
+			}
+			if fv := fieldOf(info, be.X); fv != nil && objName(fv) == "rejectErr" && isNilIdent(info, be.Y) {
+				switch be.Op {
+				case token.EQL:
+					return true, true
+				case token.NEQ:
+					return false, true
+				}
+			}
+			return false, false
+		})
+		path, found := r.F.Reach(Query{From: r.Entry(), Inclusive: true, Target: r.IsSuccessReturn, Avoid: isPt(decides), AvoidEdge: w})
+		c.Hold("R8", "parseMsgPipelineRcptCfg:decides", r.FI.Decl.Pos(), !found && len(decides) >= 2, "a recipient block without any deliver_to, reroute or reject directive is accepted (`destination example.org { }`): its recipients get 250 and are handed to no target – the configuration leaves them without a decision and must be refused when it is loaded: "+r.F.Describe(path))
+	}
+	c.Rule("R9", "table.regexp: where the expression matched, the lookup returns a non-empty result – also without a configured replacement (the documented match-check form used in source_in / destination_in)", 1)
+	if r := c.need("R9", "internal/table", "Regexp", "LookupMulti"); r != nil {
+		info := r.Info
+		w := r.F.World(func(atom ast.Expr) (bool, bool) {
+			be, ok := ast.Unparen(atom).(*ast.BinaryExpr)
+			if !ok {
+				return false, false
+			}
+			// the expression matched: the submatch index list is not nil
+			if isNilIdent(info, be.Y) {
+				if o := objOf(info, be.X); o != nil {
+					if def, n := localDef(info, r.FI.Decl.Body, o); n >= 1 && def != nil {
+						if call, isCall := ast.Unparen(def).(*ast.CallExpr); isCall && strings.HasPrefix(methodName(call), "Find") {
+							return be.Op == token.NEQ, true
+						}
+					}
+				}
+			}
+			// no replacement configured
+			if call, isCall := ast.Unparen(be.X).(*ast.CallExpr); isCall && len(call.Args) == 1 {
+				if id, isID := call.Fun.(*ast.Ident); isID && id.Name == "len" {
+					if fv := fieldOf(info, call.Args[0]); fv != nil && objName(fv) == "replacements" {
+						if tv, has := info.Types[be.Y]; has && tv.Value != nil && tv.Value.String() == "0" {
+							switch be.Op {
+							case token.EQL, token.LEQ:
+								return true, true
+							case token.NEQ, token.GTR:
+								return false, true
+							}
+						}
+					}
+				}
+			}
+			return false, false
+		})
+		avoidEdge := func(b *cfgBlock, i int) bool {
+			if w(b, i) {
+				return true
+			}
+			// a loop over the (empty) replacement list is not entered
+			if rs, ok := b.Stmt.(*ast.RangeStmt); ok && b.Kind == kindRangeLoop && i == 0 {
+				if fv := fieldOf(info, rs.X); fv != nil && objName(fv) == "replacements" {
+					return true
+				}
+			}
+			return false
+		}
+		empty := func(e ast.Expr) bool {
+			if e == nil {
+				return true
+			}
+			e = ast.Unparen(e)
+			if isNilIdent(info, e) {
+				return true
+			}
+			if cl, ok := e.(*ast.CompositeLit); ok {
+				return len(cl.Elts) == 0
+			}
+			if call, ok := e.(*ast.CallExpr); ok {
+				if id, isID := call.Fun.(*ast.Ident); isID && id.Name == "make" {
+					return true
+				}
+			}
+			return false
+		}
+		path, found := r.ReachBadReturn(r.Entry(), 0, empty, nil, avoidEdge)
+		c.Hold("R9", "Regexp.LookupMulti:match-is-found", r.FI.Decl.Pos(), !found, "with no replacement configured a key that matches the expression gets an empty result, which Lookup reports as 'not found': `destination_in regexp \"…\" { … }` – documented as a match check – never selects its block and the recipient falls through to a rule of lower precedence: "+r.F.Describe(path))
+	}
 }
